@@ -312,6 +312,16 @@ class EncDomain(Domain):
             return self.OTHER
         return None
 
+    def relevant_test(self, t, name):
+        return isinstance(t, ast.Call) and isinstance(t.func, ast.Attribute) and t.func.attr == "isascii" \
+            and isinstance(t.func.value, ast.Name) and t.func.value.id == name and not t.args
+
+    def refine(self, v, test, pol, name):
+        # an all-ASCII PEP 3333 string is its own UTF-8 re-decoding
+        if not pol or isinstance(v, tuple):
+            return v
+        return frozenset({"LATIN1": "DECODED"}.get(a, a) for a in v)
+
     def attr(self, an, fi, n, e, base):
         if e.attr == "path" and flat(base) & {"URL", "DECODED", "QUOTED"}:
             return frozenset({"URL": "DECODED"}.get(x, x) for x in flat(base))
